@@ -166,11 +166,13 @@ theorem c16_cmp_table (op : CmpOp) (v b : Num) (hv : C16.Num.wf v) (hb : C16.Num
 
 /-! ## structure fingerprints -/
 
+/-- `validate.Positive(value)` is `Gt(value, 0)`: the VALUE is passed unchanged (`.param 0`), the bound is the
+    constant 0 — an edit such as `Gt(value+1, 0)` turns the first entry into `.raw` and fails this. -/
 theorem sign_ops : signOps = [
-  ("Positive", "Gt", [0]),
-  ("Negative", "Lt", [0]),
-  ("NonPositive", "Lte", [0]),
-  ("NonNegative", "Gte", [0])
+  ("Positive", "Gt", [.param 0, .lit 0]),
+  ("Negative", "Lt", [.param 0, .lit 0]),
+  ("NonPositive", "Lte", [.param 0, .lit 0]),
+  ("NonNegative", "Gte", [.param 0, .lit 0])
 ] := by decide
 
 theorem check_ctors : checkCtors = [
@@ -179,10 +181,10 @@ theorem check_ctors : checkCtors = [
   ("Gt", "validate.Gt(payload.Value(), value)", []),
   ("Gte", "validate.Gte(payload.Value(), value)", []),
   ("MultipleOf", "validate.MultipleOf(payload.Value(), divisor)", []),
-  ("Positive", "Gt", [0]),
-  ("Negative", "Lt", [0]),
-  ("NonPositive", "Lte", [0]),
-  ("NonNegative", "Gte", [0])
+  ("Positive", "Gt", [.lit 0, .rest]),
+  ("Negative", "Lt", [.lit 0, .rest]),
+  ("NonPositive", "Lte", [.lit 0, .rest]),
+  ("NonNegative", "Gte", [.lit 0, .rest])
 ] := by decide
 
 /- The text fingerprints of `cmpFloats`, `cmpInts`, `multipleOfInts` (round 4) are gone: their bodies are
@@ -223,10 +225,11 @@ def resolveCtor (fuel : Nat) (name : String) (arg : Option Int) : Option (String
   | fuel + 1 =>
     match checkCtors.lookup name with
     | some (call, []) => some (call, arg)
-    | some (fwd, [lit]) => resolveCtor fuel fwd (some lit)
+    | some (fwd, [.lit lit, .rest]) => resolveCtor fuel fwd (some lit)        -- `return Gt(0, params...)`
+    | some (fwd, [.param 0, .rest]) => resolveCtor fuel fwd arg               -- a pure forwarder
     | _ => none
 
-def resolve (tbl : List (String × String × List (Bool × String × Option Int))) (fuel : Nat) (m : String) (arg : Option Int) :
+def resolve (tbl : List (String × String × List (Bool × String × Arg))) (fuel : Nat) (m : String) (arg : Option Int) :
     Option (List (String × Option Int)) :=
   match fuel with
   | 0 => none
@@ -234,11 +237,14 @@ def resolve (tbl : List (String × String × List (Bool × String × Option Int)
     match tbl.lookup m with
     | none => none
     | some (_, chain) =>
-      chain.foldr (fun (step : Bool × String × Option Int) acc => do
+      chain.foldr (fun (step : Bool × String × Arg) acc => do
         let rest ← acc
-        let a := match step.2.2 with
-          | some l => some l
-          | none => arg
+        -- the bound handed on: the method's own first parameter UNCHANGED, or an integer constant;
+        -- any other expression (`value+1`, `-value`, a second parameter, …) has no meaning here
+        let a ← match step.2.2 with
+          | .lit l => some (some l)
+          | .param 0 => some arg
+          | _ => none
         if step.1 then
           let r ← resolveCtor 3 step.2.1 a
           pure (r :: rest)
